@@ -253,8 +253,20 @@ def pytask_execute_task_teardown(session: Session, task: PTask) -> None:
             msg = f"{task.name!r} requires node {node.name!r} which vanished while it ran."
             raise NodeNotFoundError(msg)
 
-    collect_provisional_products(session, task)
-    missing_nodes = [node for node in tree_leaves(task.produces) if not node.state()]
+    # Products which are ordinary nodes are checked before the provisional products are
+    # resolved. Resolving them re-creates the DAG without the provisional nodes, and a
+    # task which fails afterwards would no longer find the tasks depending on its
+    # provisional products among its descendants: they would be executed.
+    missing_nodes = [
+        node
+        for node in tree_leaves(task.produces)
+        if not isinstance(node, PProvisionalNode) and not node.state()
+    ]
+    if not missing_nodes:
+        collect_provisional_products(session, task)
+        missing_nodes = [
+            node for node in tree_leaves(task.produces) if not node.state()
+        ]
     if missing_nodes:
         paths = session.config["paths"]
         files = [format_node_name(i, paths).plain for i in missing_nodes]
